@@ -30,7 +30,7 @@ Inductive ancestor (p : prog) : name -> name -> Prop :=
 
 (* the annotation, seen through Optional / container / Type wrappers and forward references, is class d *)
 Definition about (t : ty) (d : name) : bool :=
-  match seen_through t with Cls c | Enum c | Fwd c => Pos.eqb c d | _ => false end.
+  match seen_through t with Cls c | Enum c | Fwd c | FwdLocal c => Pos.eqb c d | _ => false end.
 
 Definition spec_edge (p : prog) (cs : list name) (e : edge) : Prop :=
   In (e_src e) cs /\ In (e_dst e) cs /\
@@ -88,7 +88,7 @@ Definition leaf_ok (p : prog) (t : ty) : bool :=
   match seen_through t with
   | Cls c => match find_decl p c with Some d => match d_kind d with DEnum => false | _ => true end | None => false end
   | Enum c => match find_decl p c with Some d => match d_kind d with DEnum => true | _ => false end | None => false end
-  | Fwd c => match find_decl p c with Some _ => true | None => false end
+  | Fwd c | FwdLocal c => match find_decl p c with Some _ => true | None => false end
   | _ => true
   end.
 (* declaration order: bases are declared earlier; enums and plain classes have no bases and no fields *)
@@ -108,6 +108,10 @@ Definition wf_prog (p : prog) : bool :=
   && forallb (fun d => forallb (fun b => match find_decl p b with
                                           | Some d' => match d_kind d' with DDataclass => true | _ => false end
                                           | None => false end) (d_bases d)) p.
+(* a forward reference to a class that is not a module-level name can only be found in the diagram *)
+Definition locals_in (cs : list name) (t : ty) : bool :=
+  match seen_through t with FwdLocal n => mem n cs | _ => true end.
 Definition wf_classes (p : prog) (cs : list name) : bool :=
+  forallb (fun f => locals_in cs (f_ann f)) (all_fields p) &&
   nodupb cs &&
   forallb (fun c => match find_decl p c with Some d => match d_kind d with DDataclass => true | _ => false end | None => false end) cs.
